@@ -158,6 +158,11 @@ impl ExchangeId {
 
             match select3(&mut recv, &mut session_removed, &mut timeout).await {
                 Either3::First(mut packet) => {
+                    // The predicate above also fires when our session is gone, in which
+                    // case the packet in the RX buffer belongs to somebody else:
+                    // bail out without consuming it
+                    self.with_state(matter, |_| Ok(()))?;
+
                     packet.clear_on_drop(true);
 
                     self.check_no_pending_retrans(matter)?;
